@@ -222,6 +222,10 @@ def step (s : St) (ts : List String) : St × String :=
     match parseCut il fid fl with
     | some (il, fid, fl) => ({ s with main := { disk := applyCut s.main.disk il fid fl, top := none } }, "ok")
     | none => (s, "bad-op")
+  | ["cutfile", fid, len] =>
+    match parseNat? fid, parseNat? len with
+    | some fid, some len => ({ s with main := { disk := s.main.disk.cutFile fid len, top := none } }, "ok")
+    | _, _ => (s, "bad-op")
   | ["same"] =>
     match s.main.top, s.alt.top with
     | some m, some a =>
